@@ -8,6 +8,7 @@
 package strings
 
 import (
+	"math"
 	"strconv"
 	"strings"
 	"unicode/utf8"
@@ -241,11 +242,12 @@ var Module = map[string]ugo.Object{
 	// Returns a new string consisting of count copies of the string s.
 	//
 	// - If count is a negative int, it returns empty string.
-	// - If (len(s) * count) overflows, it panics.
+	// - If (len(s) * count) exceeds the maximum string length, it returns an
+	//   error.
 	"Repeat": &ugo.Function{
 		Name:    "Repeat",
-		Value:   stdlib.FuncPsiRO(repeatFunc),
-		ValueEx: stdlib.FuncPsiROEx(repeatFunc),
+		Value:   stdlib.FuncPsiROe(repeatFunc),
+		ValueEx: stdlib.FuncPsiROeEx(repeatFunc),
 	},
 	// ugo:doc
 	// Replace(s string, old string, new string[, n int]) -> string
@@ -595,12 +597,22 @@ func pad(c ugo.Call, left bool) (ugo.Object, error) {
 	return ugo.String(sb.String()), nil
 }
 
-func repeatFunc(s string, count int) ugo.Object {
+// maxStringLen is the maximum length of a string created by Repeat, PadLeft
+// and PadRight. A longer result cannot be allocated (the Go runtime panics
+// while making it), so it is reported as an error instead.
+const maxStringLen = math.MaxInt32
+
+func repeatFunc(s string, count int) (ugo.Object, error) {
 	// if n is negative strings.Repeat function panics
 	if count < 0 {
-		return ugo.String("")
+		return ugo.String(""), nil
 	}
-	return ugo.String(strings.Repeat(s, count))
+	// strings.Repeat panics if the result length overflows
+	if len(s) > 0 && count > maxStringLen/len(s) {
+		return ugo.Undefined, ugo.ErrIndexOutOfBounds.NewError(
+			"Repeat: result length exceeds " + strconv.Itoa(maxStringLen))
+	}
+	return ugo.String(strings.Repeat(s, count)), nil
 }
 
 func replaceFunc(c ugo.Call) (ugo.Object, error) {
